@@ -590,6 +590,9 @@ class MiniEval:
                 if 'key' in kwargs and f.id in ('sorted', 'min', 'max'):
                     kwargs = {**kwargs, 'key': self.as_callable(kwargs['key'])}
                 return getattr(builtins, f.id)(*args, **kwargs)
+            if f.id in ('map', 'filter') and args and f.id not in self.globals:
+                fn_ = (lambda x: x) if args[0] is None else self.as_callable(args[0])
+                return list(map(fn_, *args[1:])) if f.id == 'map' else [x for x in args[1] if fn_(x)]  # eager: the interpreted code only iterates it
             if f.id == 'iter' and len(args) == 1 and type(args[0]) in (list, tuple, str, dict, set, frozenset, range):
                 return iter(args[0])
             if f.id == 'next' and args and type(args[0]).__name__.endswith('iterator'):
